@@ -5,7 +5,7 @@ driver commands for C19 (the checker of `Model/IR.lean`, executed on programs pr
 
   program   `[[p,…],[[op,a,b],…]]`   op: 0 new x s · 1 copy x y · 2 store y v · 3 elem x y · 4 write x ·
                                        5 setattr y v · 6 readGlobal g · 7 writeGlobal g · 8 rng
-  solution  `[w,pts,cont]`            packed tables: `w` bits per mask (bit 0 = owned, bit s+1 = site s), variable x at bits x*w…
+  solution  `[w,k,[pts…],[cont…]]`    packed tables: `w` bits per mask (bit 0 = owned, bit s+1 = site s), `k` masks per piece
 
   `ir.check <program> <solution>`   → T/F   (`safe`: post-fixpoint and no write through a possibly-owned variable)
   `ir.fix   <program> <solution>`   → T/F   (`isPostFixpoint` only)
@@ -41,14 +41,15 @@ def progOf? : Val → Option Prog
   | _ => none
 
 def solOf? : Val → Option SolB
-  | .list [n, p, c] => do
+  | .list [n, k, p, c] => do
     let n ← asNat? n
-    let p ← asNat? p
-    let c ← asNat? c
-    pure ⟨n, p, c⟩
+    let k ← asNat? k
+    let p ← listOf? asNat? p
+    let c ← listOf? asNat? c
+    pure ⟨n, k, p, c⟩
   | _ => none
 
-def ofSol (b : SolB) : Val := .list [Val.ofNat b.w, Val.ofNat b.pts, Val.ofNat b.cont]
+def ofSol (b : SolB) : Val := .list [Val.ofNat b.w, Val.ofNat b.k, ofNats b.pts, ofNats b.cont]
 
 def handle : Handler
   | "ir.check", [p, s] => do
